@@ -34,7 +34,7 @@ pub struct ExIoError(std::io::Error);
 //@enum ERR Error derive=-
 //@end
 
-//@trait INP Input methods=try_to_string
+//@trait INP Input methods=try_to_string,position_after,len
 //@  raw
 //@  |     spec fn v_try_to_string(&self) -> Option<String>;
 //@  fn try_to_string ret=r xbody
@@ -42,11 +42,20 @@ pub struct ExIoError(std::io::Error);
 //@end
 //@trait PAR State methods=default_layout
 //@end
-//@trait CTX Context methods=position
+//@trait CTX Context methods=position,span,layout_ahead,state
 //@  raw
 //@  |     spec fn v_position(&self) -> Position;
+//@  |     spec fn v_span(&self) -> SourceSpan;
+//@  |     spec fn v_layout_ahead(&self) -> Option<&'i I>;
+//@  |     spec fn v_state(&self) -> S;
 //@  fn position ret=r
 //@  |         ensures r == self.v_position(),
+//@  fn span ret=r
+//@  |         ensures r == self.v_span(),
+//@  fn layout_ahead ret=r
+//@  |         ensures r == self.v_layout_ahead(),
+//@  fn state ret=r
+//@  |         ensures r == self.v_state(),
 //@end
 
 // C12/C13: a position converts to the zero-width span at that position
